@@ -130,7 +130,7 @@ class Ctx:
         raise OracleFailure(f"{name} should raise {exc.__name__}, returned normally")
 
     # -- assertions --------------------------------------------------------------------------
-    def check(self, cond, msg, **details):
+    def check(self, cond, msg, /, **details):
         if not cond:
             raise OracleFailure(msg, details)
 
